@@ -19,6 +19,8 @@ FUNCTIONS = ["btc_hd_wallet.bip39.bip39_seed_from_mnemonic", "btc_hd_wallet.bip3
 BOUNDS = {"text": "mnemonic and passphrase are uninterpreted text constants: the verdict covers every string of every length and script "
                   "(the code never inspects their characters)", "seed lengths": "every length 0..64 bytes, content symbolic; hex form lower/upper case",
           "networks": "both"}
+BOUNDS_ADDED = 'the two fresh-entropy constructors with a passphrase (entropy a free value); HMAC halves that are not a valid key; boundary vectors: checksum-valid sentences with irregular white space, hex-looking text'
+BOUNDS["histories, lifetimes, injected faults, boundary vectors"] = BOUNDS_ADDED
 STUBS = ["unicodedata.normalize / is_normalized, str.encode, str methods on the opaque text -> uninterpreted functions with the axioms "
          "normalize(F, normalize(F, x)) = normalize(F, x) and is_normalized(F, x) <=> normalize(F, x) = x",
          "hashlib.pbkdf2_hmac, HMAC-SHA512 -> uninterpreted functions", "mnemonic_from_entropy -> summary MNEM(entropy) (verified in C04)",
